@@ -10,6 +10,17 @@ REALS = ("ValueType is modelled by exact reals (type R): every 'equals its defin
          "the size and growth of IEEE rounding error is NOT decided by this check")
 
 UNITS = {
+    "ind_trend": dict(tpl="ind_trend.rs.tpl", doc="indicators::TrendStrengthIndex (signal 2 as implemented; see the C06 known finding)"),
+    "hlc": dict(tpl="hlc.rs.tpl", doc="indicators::HLC (the high/low/close snapshot) and Candle::from"),
+    "ind_cmo": dict(tpl="ind_cmo.rs.tpl", doc="indicators::ChandeMomentumOscillator"),
+    "ind_rvi": dict(tpl="ind_rvi.rs.tpl", doc="indicators::RelativeVigorIndex"),
+    "ind_kvo": dict(tpl="ind_kvo.rs.tpl", doc="indicators::{KlingerVolumeOscillator, WoodiesCCI} with helpers::{sign, signi}"),
+    "ind_adx": dict(tpl="ind_adx.rs.tpl", doc="indicators::AverageDirectionalIndex (dir_mov, adx, next)"),
+    "ind_ichimoku": dict(tpl="ind_ichimoku.rs.tpl", doc="indicators::IchimokuCloud with Action's PartialEq"),
+    "ind_kama": dict(tpl="ind_kama.rs.tpl", doc="indicators::Kaufman with Action::{is_none, is_some}"),
+    "ind_cks": dict(tpl="ind_cks.rs.tpl", doc="indicators::ChandeKrollStop"),
+    "ind_fisher": dict(tpl="ind_fisher.rs.tpl", doc="indicators::FisherTransform"),
+    "ind_pivot": dict(tpl="ind_pivot.rs.tpl", doc="indicators::PivotReversalStrategy (as implemented; see the C06 known finding)"),
     "ind_osc": dict(tpl="ind_osc.rs.tpl", doc="indicators::DetrendedPriceOscillator"),
     "ind_tsi": dict(tpl="ind_tsi.rs.tpl", doc="indicators::{TrueStrengthIndex, SMIErgodicIndicator, MomentumIndex}"),
     "ind_kst": dict(tpl="ind_kst.rs.tpl", doc="indicators::{KnowSureThing, ChaikinOscillator}"),
@@ -67,6 +78,13 @@ KANI_GROUPS = {
             dict(name="vk_method_new_apply_is_stream", kind="bounded(Change(1), 4 inputs in -8..=8)", timeout=300, props=["C09"], witness_units=["combinators"], witness_fns=["new_apply", "seq_apply"]),
             dict(name="vk_method_new_fn_is_stream", kind="bounded(Change(1), 3 inputs in -8..=8)", timeout=300, props=["C09"], witness_units=["combinators"], witness_fns=["new_fn"]),
             dict(name="vk_rsi_sma_no_panic_4steps", kind="bounded(RSI<SMA(3)>, 4 steps, integer closes)", timeout=900, tier="thorough", props=["C10", "C12"], witness_units=["ind_rsi"]),
+        ]),
+    "indicators": dict(
+        src="kani/indicators.rs", append_to="src/indicators/mod.rs", module="indicators::verif_indicators",
+        harnesses=[
+            dict(name="vk_pivot_reversal_silent_without_pivot", kind="bounded(concrete strictly rising stream, 4 candles)", timeout=300, props=["C06"]),
+            dict(name="vk_trend_strength_signal2_sign", kind="bounded(concrete stream, 5 candles)", timeout=600, props=["C06"]),
+            dict(name="vk_pivot_reversal_low_pivot_buys", kind="bounded(concrete stream with one low pivot, 4 candles)", timeout=300, props=["C06"]),
         ]),
     "renko": dict(
         src="kani/renko.rs", append_to="src/methods/renko.rs", module="methods::renko::verif_renko",
@@ -126,9 +144,14 @@ KANI_GROUPS = {
 }
 
 INDICATOR_UNITS = ["ind_macd", "ind_channels", "ind_rsi", "ind_more", "ind_aroon", "ind_stoch_cmf", "ind_psar", "ind_mfi",
-                   "ind_osc", "ind_tsi", "ind_kst", "ind_rev", "ind_cci", "ind_vol"]
-IND_DEPS = ["indicator_base", "ohlcv", "window", "sma", "st_dev", "highest_lowest", "highest_lowest_index", "ema", "wma", "candle_methods"]
-COVERED_INDICATORS = "MACD, DonchianChannel, PriceChannelStrategy, BollingerBands, RelativeStrengthIndex, Envelopes, KeltnerChannel, Aroon, ChaikinMoneyFlow, StochasticOscillator, ParabolicSAR, MoneyFlowIndex"
+                   "ind_osc", "ind_tsi", "ind_kst", "ind_rev", "ind_cci", "ind_vol",
+                   "ind_cmo", "ind_rvi", "ind_kvo", "ind_adx", "ind_ichimoku", "ind_kama", "ind_cks", "ind_fisher", "ind_pivot", "ind_trend"]
+IND_DEPS = ["indicator_base", "ohlcv", "window", "sma", "st_dev", "highest_lowest", "highest_lowest_index", "ema", "wma", "candle_methods", "hlc"]
+COVERED_INDICATORS = ("MACD, DonchianChannel, PriceChannelStrategy, BollingerBands, RelativeStrengthIndex, Envelopes, KeltnerChannel, Aroon, ChaikinMoneyFlow, "
+    "StochasticOscillator, ParabolicSAR, MoneyFlowIndex, DetrendedPriceOscillator, TrueStrengthIndex, SMIErgodicIndicator, MomentumIndex, KnowSureThing, "
+    "ChaikinOscillator, Trix, CoppockCurve, AwesomeOscillator, CommodityChannelIndex, HullMovingAverage, EaseOfMovement, EldersForceIndex, "
+    "ChandeMomentumOscillator, RelativeVigorIndex, KlingerVolumeOscillator, WoodiesCCI, AverageDirectionalIndex, IchimokuCloud, Kaufman, ChandeKrollStop, "
+    "FisherTransform, PivotReversalStrategy, TrendStrengthIndex")
 
 
 PROPS = {
@@ -297,12 +320,17 @@ PROPS["C05"] = dict(
                  "std trait impls (IndicatorConfig/IndicatorInstance) are checked as inherent fns with the same bodies (R12)"],
 )
 PROPS["C06"] = dict(
-    verus=INDICATOR_UNITS + ["indicator_base", "ohlcv"],
+    verus=INDICATOR_UNITS + ["indicator_base", "ohlcv"], kani=["indicators"],
     claim=("Same units as C05, signal half: for the indicators under contract each signal slot is verified to equal its documented rule over the step's own "
            "values and the Cross/Action contracts (MACD: crossing of the signal line / of zero; Donchian and PriceChannel: new extreme / band touch; "
            "Bollinger: position inside the band; RSI: entering/leaving the zones). Comparisons are exact in the real model."),
     assumptions=[REALS + "; steps where the deciding quantity is within rounding of its threshold are therefore not distinguished",
-                 "only " + COVERED_INDICATORS + " are covered", "Action::from(f64) appears as the uninterpreted action_of_real (its bit-level behaviour is C16)"],
+                 "only " + COVERED_INDICATORS + " are covered", "Action::from(f64) appears as the uninterpreted action_of_real (its bit-level behaviour is C16)",
+                 "PivotReversalStrategy: the Verus contract states what the code computes (se - le), NOT the documented rule; the documented rule is the bounded Kani "
+                 "harness vk_pivot_reversal_silent_without_pivot, which fails and is listed as a known finding",
+                 "Kaufman: the filtered signal (filter_period > 1) is not specified, only the unfiltered crossing; "
+                 "indicators that embed a ReversalSignal (Trix, CoppockCurve, AwesomeOscillator, HullMovingAverage, PivotReversalStrategy) are covered up to the step at "
+                 "which the detector's position counter saturates (C07/C14 known finding: precondition in_capacity)"],
 )
 PROPS["C12"] = dict(
     verus=INDICATOR_UNITS + ["ohlcv", "candle_methods", "derived_window", "st_dev", "ema", "indicator_base"],
